@@ -70,6 +70,49 @@ TABLE.update({
     ),
 })
 
+TABLE.update({
+    "C07": (
+        True,
+        EX,
+        "exhaustive enumeration of AuxData type trees up to a depth/arity "
+        "bound x boundary-value tables, differential against a reference codec",
+        "Every type tree over the 15 leaves and 5 containers up to depth 2 "
+        "(quick: binary containers at depth 2 over one leaf per codec class; "
+        "thorough: all, plus depth 3 over leaf classes and arity 3) is paired "
+        "with boundary values (all 8-bit integers, 2^k+-1 and bounds for wider "
+        "ones, NaN payloads / infinities / signed zero / subnormals, every "
+        "string of length <=3 over NUL, delimiters and 2-,3-,4-byte UTF-8 "
+        "characters, attached and unattached UUIDs and Offsets, empty and "
+        "nested containers, every variant alternative). decode(encode(v)) "
+        "must equal v bit for bit, attached UUIDs must come back as the node "
+        "objects, and exact consumption is observed by framing the value "
+        "between sentinels and in a two-element sequence. The codec is a pure "
+        "function of (type, value), so complete enumeration of a bounded input "
+        "space is the exhaustive exploration that applies.",
+        "Trusted: mc/refcodec.py value model; set elements and mapping keys "
+        "are restricted to hashable, NaN-free Python values.",
+        "3/C07",
+    ),
+    "C08": (
+        True,
+        EX,
+        "exhaustive enumeration of (type, value) pairs; byte-for-byte "
+        "comparison with an independent encoder and cross-decoding by the "
+        "repository's Java codec",
+        "Same (type, value) space as C07. The bytes of Serialization.encode "
+        "must equal those of mc/refcodec.py (a transcription of the "
+        "Serialization Format of AuxData.hpp; sets and mappings up to element "
+        "order), reference bytes (also with another element order) must decode "
+        "to the same value, and for every type the Java codec supports one JVM "
+        "decodes gtirb's bytes to the same canonical dump and gtirb decodes "
+        "Java's re-encoding to the same value.",
+        "Trusted: mc/refcodec.py; javac-compiled java/com/grammatech/gtirb/"
+        "auxdatacodec from the working tree with a compile-only ByteString "
+        "stub; the C++ codec cannot be built in this image.",
+        "3/C08",
+    ),
+})
+
 PENDING = [
     "C01", "C02", "C03", "C04", "C05", "C06", "C07", "C08", "C09", "C10",
     "C11", "C12", "C13", "C14", "C16", "C17", "C18", "C19",
